@@ -198,7 +198,45 @@ func Add(a, b Term) Term { return App("+", SInt, a, b) }
 
 // At is the address of element i of a window starting at off: an uninterpreted wrapper around
 // off+i so that quantifier triggers never contain arithmetic.
-func At(off, i Term) Term { return App("at", SInt, off, i) }
+func At(off, i Term) Term {
+	// element address = off + i as plain arithmetic. A quantified index variable j that is used as s[j] is
+	// re-expressed by the verifier as (J - off) for a bound absolute index J (see evalQuant), so that the
+	// access simplifies to select(A, J): triggers then never contain arithmetic.
+	if off.S == "0" {
+		return i
+	}
+	if strings.HasPrefix(i.S, "(- ") && strings.HasSuffix(i.S, " "+off.S+")") {
+		inner := i.S[3 : len(i.S)-len(off.S)-2]
+		if balanced(inner) {
+			return Term{inner, SInt}
+		}
+	}
+	if i.S == "0" {
+		return off
+	}
+	return App("+", SInt, off, i)
+}
+
+func balanced(s string) bool {
+	d := 0
+	for _, c := range s {
+		switch c {
+		case '(':
+			d++
+		case ')':
+			d--
+			if d < 0 {
+				return false
+			}
+		case ' ':
+			if d == 0 {
+				return false
+			}
+		}
+	}
+	return d == 0
+}
+
 func Sub(a, b Term) Term { return App("-", SInt, a, b) }
 func Mul(a, b Term) Term { return App("*", SInt, a, b) }
 func Lt(a, b Term) Term  { return App("<", SBool, a, b) }
@@ -255,6 +293,12 @@ var solvers = []solverSpec{
 	}},
 	{"z3-5.1.0", func(f string, t, seed int) []string {
 		return []string{"z3-new", "-smt2", fmt.Sprintf("-T:%d", t), fmt.Sprintf("smt.random_seed=%d", seed), "smt.mbqi=false", "smt.auto_config=false", f}
+	}},
+	{"z3-5.1.0/arith2", func(f string, t, seed int) []string {
+		return []string{"z3-new", "-smt2", fmt.Sprintf("-T:%d", t), fmt.Sprintf("smt.random_seed=%d", seed), "smt.mbqi=false", "smt.auto_config=false", "smt.arith.solver=2", f}
+	}},
+	{"z3-5.1.0/mbqi", func(f string, t, seed int) []string {
+		return []string{"z3-new", "-smt2", fmt.Sprintf("-T:%d", t), fmt.Sprintf("smt.random_seed=%d", seed), f}
 	}},
 	{"cvc5-1.0.3", func(f string, t, seed int) []string {
 		return []string{"cvc5", fmt.Sprintf("--tlimit=%d", t*1000), fmt.Sprintf("--seed=%d", seed), "--lang=smt2", f}
